@@ -19,7 +19,8 @@ FILE = "dissect/hypervisor/util/vmtar.py"
 class FrombufModel(Model):
     def __init__(self):
         super().__init__()
-        self.buf = fresh_bytes_("buf")
+        b_ = fresh_bytes_("buf")
+        self.buf = BytesV(z3.IntVal(512), b_.at)  # a header block is exactly 512 bytes (constant length: slices fold)
         self.global_calls["super"] = lambda eng, st, args, node: ObjV("super")
         self.methods[("super", "frombuf")] = self.super_frombuf
         self.globals["struct"] = ObjV("struct")
@@ -71,11 +72,13 @@ def _frombuf():
 
     return FnContract(FILE, "VisorTarInfo.frombuf", ["C20"], mk,
                       params=lambda m: {"cls": ObjV("cls"), "buf": m.buf, "encoding": OpaqueV("encoding"), "errors": OpaqueV("errors")},
-                      requires=lambda m: [m.buf.n == 512, forall_k(512, lambda k: z3.And(m.buf.at(k) >= 0, m.buf.at(k) <= 255))], post=post,
+                      requires=lambda m: [forall_k(512, lambda k: z3.And(m.buf.at(k) >= 0, m.buf.at(k) <= 255))], post=post,
                       note="buf is any 512-byte header block")
 
 
 class ProcModel(Model):
+    pymodule = "dissect.hypervisor.util.vmtar"
+
     def __init__(self):
         super().__init__()
         self.is_visor = z3.Bool("self.is_visor")
@@ -88,6 +91,7 @@ class ProcModel(Model):
         self.fields["tarfile.encoding"] = OpaqueV("encoding")
         self.fields["tarfile.errors"] = OpaqueV("errors")
         self.tell = z3.Int("fileobj.tell()")
+        self.fields["tarfile.offset"] = IntV(z3.Int("tarfile.offset0"))  # position of the header block that started this member (may be an extension header)
         self.methods[("tarfile.fileobj", "tell")] = lambda eng, st, args, node: IntV(self.tell)
         self.methods[("self", "_apply_pax_info")] = self.pax
         self.global_calls["super"] = lambda eng, st, args, node: ObjV("super")
